@@ -193,10 +193,11 @@ func (f *feed) Read(p []byte) (int, error) {
 // ---- result of one call ---------------------------------------------------------------------------
 
 type result struct {
-	digest string
-	out    []byte        // returned slice (C12: must stay intact)
-	vals   []interface{} // pointers to decoded values (C12)
-	input  []byte        // caller's input (C12: must not be modified; may be overwritten afterwards)
+	digest      string
+	out         []byte        // returned slice (C12: must stay intact)
+	vals        []interface{} // pointers to decoded values (C12)
+	input       []byte        // caller's input (C12: must not be modified; may be overwritten afterwards)
+	inputBefore []byte        // copy of input[:cap] taken before the call (C12)
 }
 
 func dig(b []byte, err error) string {
@@ -232,13 +233,20 @@ func enc(f func() ([]byte, error)) result {
 }
 
 func dec(doc string, mk func() interface{}, f func(in []byte, dst interface{}) error) result {
-	in := []byte(doc)
+	// the input has spare capacity holding a recognisable pattern: neither the document nor the bytes behind it may change
+	full := make([]byte, len(doc)+16)
+	copy(full, doc)
+	for i := len(doc) + 1; i < len(full); i++ { // the byte right behind the document stays 0, as in a fresh buffer
+		full[i] = 0xEE
+	}
+	in := full[:len(doc)]
+	before := append([]byte(nil), full...)
 	dst := mk()
 	var err error
 	if rec := wk.Guard(func() { err = f(in, dst) }); rec != nil {
-		return result{digest: "panic", input: in}
+		return result{digest: "panic", input: in, inputBefore: before}
 	}
-	r := result{digest: digv(reflect.ValueOf(dst).Elem().Interface(), err), input: in}
+	r := result{digest: digv(reflect.ValueOf(dst).Elem().Interface(), err), input: in, inputBefore: before}
 	if err == nil {
 		r.vals = []interface{}{dst}
 	}
@@ -289,6 +297,23 @@ var Kinds = map[string]func() result{
 	},
 	"opt:debug": func() result {
 		return enc(func() ([]byte, error) { return gojson.MarshalWithOption(smallValue(), gojson.DebugWith(io.Discard)) })
+	},
+	// a large RawMessage / marshaler result that is a window into a bigger caller-owned buffer: encoding must not write behind it
+	"marshal:bigraw": func() result {
+		full := []byte(`{"pad":"` + strings.Repeat("p", 3000) + `"}` + strings.Repeat("Z", 64))
+		raw := gojson.RawMessage(full[:len(full)-64])
+		before := append([]byte(nil), full...)
+		r := enc(func() ([]byte, error) { return gojson.Marshal(struct{ R gojson.RawMessage }{raw}) })
+		r.input, r.inputBefore = full[:len(full)-64], before
+		return r
+	},
+	"indent:bigraw": func() result {
+		full := []byte(`[` + strings.Repeat("1,", 1500) + `2]` + strings.Repeat("Z", 64))
+		raw := gojson.RawMessage(full[:len(full)-64])
+		before := append([]byte(nil), full...)
+		r := enc(func() ([]byte, error) { return gojson.MarshalIndent(map[string]interface{}{"r": raw}, "", " ") })
+		r.input, r.inputBefore = full[:len(full)-64], before
+		return r
 	},
 	"ctxaware:marshal": func() result {
 		return enc(func() ([]byte, error) { return gojson.Marshal(&ctxHolder{A: 1, P: &ctxProbe{2}}) })
@@ -535,6 +560,20 @@ var Kinds = map[string]func() result{
 	"fail:um-syntax-end": func() result {
 		return dec(`{"a":7,"b":"x","e":{"a":1}`, func() interface{} { return new(small) }, gojson.Unmarshal)
 	},
+	// failing calls that carry decode options: nothing of them may survive in the pooled decoder context
+	"fail:um-firstwin": func() result {
+		return dec(`{"a":1,"a":2,"b":`, func() interface{} { return new(ab) }, func(in []byte, d interface{}) error {
+			return gojson.UnmarshalWithOption(in, d, gojson.DecodeFieldPriorityFirstWin())
+		})
+	},
+	"fail:uctx-value": func() result {
+		return dec(`{"A":1,"P":7,`, func() interface{} { return new(ctxHolder) }, func(in []byte, d interface{}) error {
+			return gojson.UnmarshalContext(context.WithValue(context.Background(), ctxKey{}, "secret"), in, d)
+		})
+	},
+	"um:dupkeys": func() result {
+		return dec(`{"a":1,"b":5,"a":2,"b":6}`, func() interface{} { return new(ab) }, gojson.Unmarshal)
+	},
 	"fail:um-type": func() result {
 		return dec(`{"a":"str","b":"x"}`, func() interface{} { return new(small) }, gojson.Unmarshal)
 	},
@@ -688,9 +727,10 @@ func Run(job *wk.Job, w *wk.Worker) error {
 			}
 			if p.Mode == "c12" {
 				// the caller's input must not have been modified by the call
-				if r.input != nil {
-					// inputs are built from constants: re-derive by running the kind's doc again is not possible here,
-					// so the check is against the copy taken before the call (see dec): compare with a fresh conversion
+				if r.input != nil && r.inputBefore != nil && !bytes.Equal(r.input[:cap(r.input)][:len(r.inputBefore)], r.inputBefore) {
+					w.DivFine("c12|caller-memory-modified|"+kindGroup(k), fmt.Sprintf("%v", hist[:step+1]), counted,
+						fmt.Sprintf("%s changed the caller's bytes (document or the spare capacity behind it): before %q, after %q", k, trunc(string(r.inputBefore)), trunc(string(r.input[:cap(r.input)][:len(r.inputBefore)]))), c)
+					return
 				}
 				// earlier results and decoded values must be intact
 				for _, e := range keep {
